@@ -808,3 +808,14 @@ for _n in range(1, 7):
     B("C17", _n)
 for _n in range(1, 7):
     B("C18", _n)
+
+
+# second, more adventurous round of independent behaviour-preserving changes (control flow, helper extraction, idiom swaps,
+# keyword / dict-splat arguments, harmless additions, an algorithmic rewrite of one small function)
+def B2(prop, n):
+    MUTANTS.append(dict(prop=prop, name=f"benign-agent-2:{prop}-{n}", patch=f"selftest/patches/bn2_{prop}_{n}.diff", rule=None, benign=True))
+
+
+for _p in ("C01", "C03", "C04", "C05", "C08", "C09", "C10", "C12", "C14", "C19", "C20"):
+    for _n in range(1, 7):
+        B2(_p, _n)
